@@ -26,6 +26,9 @@ CHECKS.update({
  "C01": ("exploration","runtime oracle: reference resolver on the structured file description vs responses of the real compile->store->serve path on three storage configurations",
          "Generates well-formed data files from a structured description (all line types, syntactic variety, zones/delegations/wildcards/locations/maps), compiles each with the real compilers to CDB, RocksDB v1 and v2, loads them into the real handler and sends generated queries from clients of every location; rcode, AA, answer, SOA-on-empty and referral NS+glue are compared strictly with a reference resolver that never sees codec output, the remaining sections for soundness.",
          "Trusts the reference resolver (validated by triaging every disagreement) and miekg/dns packing for canonical rdata. Address answers are compared with max-answer >= candidates. DS/ANY/non-IN are left to C02/C13.","4/C01"),
+ "C02": ("exploration","differential runtime monitor: the same generated query sent to six storage/compiler configurations of the same generated file, full canonical responses compared",
+         "Compiles each generated data file to CDB (1/16 workers, read with combined and per-family prefix sets) and to RocksDB v1/v2 through the builder and through batches with different sizes/parallelism, loads all six into real handlers and compares the complete canonical responses (every section, OPT/ECS and scope) for generated queries including DS, ANY, CH, EDNS variants, TCP, located and hostile ECS clients. No model is involved, so it also covers what C01's oracle leaves open.",
+         "A defect shared by all configurations is invisible here (C01 covers that). Randomised address selection is neutralised with max-answer >= candidates; additional addresses compared by owner+family.","4/C02"),
 })
 BUILT = set(CHECKS)
 ALL = [json.loads(l)["id"] for l in open("properties.jsonl")]
